@@ -327,6 +327,19 @@ Proof.
   rewrite IH. unfold delivered. rewrite Hext. reflexivity.
 Qed.
 
+(* a parameter block that the shim can pull completely (no conversions) passes validation *)
+Lemma abs_pull_all_ok fuel : forall p calls p',
+  abs_pull fpext fptrunc fuel None [] p = Some (calls, p') -> pull_all_ok fpext fuel p = true.
+Proof.
+  induction fuel as [|f IH]; intros p calls p' H; [reflexivity|].
+  cbn [abs_pull] in H. cbn [pull_all_ok].
+  destruct (params_next fpext p) as [[[[ct v]|] p1]|e|s]; try discriminate; [|reflexivity].
+  destruct (convert fptrunc KNone v) as [r|e|s]; try discriminate.
+  cbn [tl] in H.
+  destruct (abs_pull fpext fptrunc f None [] p1) as [[cs1 p2]|] eqn:E; [|discriminate].
+  eapply IH. exact E.
+Qed.
+
 (* EXECUTE of a live statement: the shim is given exactly the parameters the client bound, decoded
    with the types of this execution (rebind) or the latest bound ones (reuse), long-data
    parameters replaced by the pending data; the history advances *)
@@ -374,7 +387,11 @@ Proof.
   destruct Hex as (final & Hf & Hbd).
   exists (insert_key id {| sd_params := sd_params sd; sd_bound := p_bound final; sd_long := [] |} st).
   split.
-  - unfold abs_handle; cbv beta iota zeta. rewrite Hlk, Hpop. cbv beta iota zeta.
+  - assert (Hvalid : params_valid fpext sd (exec_block ps b) = true).
+    { unfold params_valid, pstate_of. rewrite Hp, Hn.
+      replace (N.to_nat (Nlen ps)) with (length ps) by (unfold Nlen; symmetry; apply Nat2N.id).
+      eapply abs_pull_all_ok. unfold pstate0 in Hf. exact Hf. }
+    unfold abs_handle; cbv beta iota zeta. rewrite Hlk, Hvalid, Hpop. cbv beta iota zeta.
     rewrite Hret, Hpull, Hconvs. cbn [no_tag negb].
     rewrite Hp, Hn.
     replace (N.to_nat (Nlen ps)) with (length ps) by (unfold Nlen; symmetry; apply Nat2N.id).
@@ -424,6 +441,7 @@ Lemma handle_execute id block st sc rep st' sc' :
 Proof.
   unfold abs_handle; cbv beta iota zeta.
   destruct (lookup id st) as [sd|]; [|discriminate].
+  destruct (negb (params_valid fpext sd block)); [discriminate|].
   destruct (pop_x sc) as [x sc1].
   destruct (negb (no_tag (x_ret x))); [discriminate|].
   destruct (abs_pull fpext fptrunc _ _ _ _) as [[cs p]|] eqn:E; [|discriminate].
